@@ -19,6 +19,39 @@
             match self.sd_jwt_payload.entries@[j_idx(self.sd_jwt_payload@, "cnf"@)].1 { Value::Object(m) => Some(m), _ => None }
         } else { None }
     }
+    // ---- the only reasons for which verification may refuse (C01: honest presentations are accepted; C09: no refusal for
+    // temporal reasons inside the window).  Each is a function of the presentation, the resolver and the expectations.
+    spec fn issuer_alg(sign_alg: Option<String>) -> Option<jsonwebtoken::Algorithm> {
+        match sign_alg { Some(s) => jsonwebtoken::alg_of_str(s@), None => Some(jsonwebtoken::Algorithm::ES256) }
+    }
+    spec fn issuer_vv(alg: jsonwebtoken::Algorithm) -> jsonwebtoken::VV {
+        jsonwebtoken::VV { algorithms: seq![alg], leeway: 60, validate_exp: true, validate_nbf: true, validate_aud: true, aud: None,
+                           required: set!["exp"@], validate_signature: true }
+    }
+    spec fn kb_vv(alg: jsonwebtoken::Algorithm, aud: Seq<char>) -> jsonwebtoken::VV {
+        jsonwebtoken::VV { algorithms: seq![alg], leeway: 60, validate_exp: true, validate_nbf: false, validate_aud: true, aud: Some(seq![aud]),
+                           required: set!["aud"@], validate_signature: true }
+    }
+    spec fn issuer_reject_reason(&self, sign_alg: Option<String>) -> bool {
+        self.sd_jwt_engine.unverified_sd_jwt is None
+        || !jsonwebtoken::header_decodable(self.tok())
+        || self.sd_jwt_engine.unverified_input_sd_jwt_payload is None
+        || !(j_get(self.sd_jwt_engine.unverified_input_sd_jwt_payload->Some_0@, "iss"@) matches Some(J::Str(_)))
+        || Self::issuer_alg(sign_alg) is None
+        || !jsonwebtoken::lib_accepts(self.tok(), self.issuer_key(), Self::issuer_vv(Self::issuer_alg(sign_alg)->Some_0))
+    }
+    spec fn kb_alg(sign_alg: Option<&str>) -> Option<jsonwebtoken::Algorithm> {
+        match sign_alg { Some(s) => jsonwebtoken::alg_of_str(s@), None => jsonwebtoken::alg_of_str("ES256"@) }
+    }
+    spec fn kb_reject_reason(&self, aud: Seq<char>, nonce: Seq<char>, sign_alg: Option<&str>) -> bool {
+        self.holder_key() is None
+        || self.sd_jwt_engine.unverified_input_key_binding_jwt is None
+        || Self::kb_alg(sign_alg) is None
+        || !jsonwebtoken::lib_accepts(self.kb(), self.holder_key()->Some_0, Self::kb_vv(Self::kb_alg(sign_alg)->Some_0, aud))
+        || !(jsonwebtoken::hdr_of(self.kb()).typ matches Some(t) && t@ == "kb+jwt"@)
+        || j_get(jsonwebtoken::claims_of(self.kb()), "nonce"@) != Some(J::Str(nonce))
+        || j_get(jsonwebtoken::claims_of(self.kb()), "sd_hash"@) != Some(J::Str(self.presented_hash()))
+    }
     // everything the verifier has established about an accepted issuer-signed JWT
     spec fn jwt_verified(&self) -> bool {
         &&& jsonwebtoken::sig_ok(self.tok(), self.issuer_key(), jsonwebtoken::hdr_of(self.tok()).alg)
